@@ -92,6 +92,10 @@ type Translator struct {
 	reachConsts    map[string]bool
 	autoRecvNonNil bool
 	safeOnly       bool
+	axiomFrom, axiomTo int // facts[axiomFrom:axiomTo] are the global axioms of the contract file
+	axiomSyms      []map[string]bool
+	declFuns       map[string]bool
+	declFunsN      int
 	usedContracts  map[string]bool // in-package functions whose contracts this verification relied on (modular calls, laws)
 }
 
@@ -121,6 +125,7 @@ func newTranslator(prog *ssa.Program, spkg *ssa.Package, c *Contracts) *Translat
 	}
 	tr.cur = &State{M: map[string]string{}}
 	tr.reach = "true"
+	tr.u.onLazyFact = func(f string) { tr.fact(f) }
 	return tr
 }
 
@@ -890,7 +895,24 @@ func (tr *Translator) havocAll() {
 			// named as ground constants so that instantiating the quantified protection facts creates no new terms
 			p := tr.define("hp", "Int", "(select "+tr.cur.get(tr.u, l.comp)+" "+tr.u.leafAddr(a, t, l.path)+")")
 			hb := tr.define("hpb", "Int", "(obase "+p+")")
-			prot = append(prot, and(not(eq(p, "0")), eq("(obase a)", hb), notPassed(hb, l.T.Underlying().(*types.Pointer).Elem())))
+			pe := l.T.Underlying().(*types.Pointer).Elem()
+			prot = append(prot, and(not(eq(p, "0")), eq("(obase a)", hb), notPassed(hb, pe)))
+			// a small union holder (SchemaOrBool, SchemaOrArray, ...): what it points to is held as well (second level)
+			if st2, _ := structOf(pe); st2 != nil && len(tr.u.leaves(pe)) <= 4 {
+				for _, l2 := range tr.u.leaves(pe) {
+					switch lt := l2.T.Underlying().(type) {
+					case *types.Pointer:
+						p2 := tr.define("hp2", "Int", ite(eq(p, "0"), "0", "(select "+tr.cur.get(tr.u, l2.comp)+" "+tr.u.leafAddr(p, pe, l2.path)+")"))
+						hb2 := tr.define("hpb2", "Int", "(obase "+p2+")")
+						prot = append(prot, and(not(eq(p2, "0")), eq("(obase a)", hb2), notPassed(hb2, lt.Elem())))
+					case *types.Slice:
+						sv := mkVal("(select "+tr.cur.get(tr.u, l2.comp)+" "+tr.u.leafAddr(p, pe, l2.path)+")", "Slice", l2.T)
+						arr := tr.define("ha2", "Int", ite(eq(p, "0"), "0", slPart(sv, 0)))
+						hb2 := tr.define("hab2", "Int", "(obase "+arr+")")
+						prot = append(prot, and(not(eq(arr, "0")), eq("(obase a)", hb2), notPassed(hb2, lt.Elem())))
+					}
+				}
+			}
 		}
 	}
 	if len(holders) > 0 || len(tr.paramHolders) > 0 {
@@ -933,6 +955,19 @@ func (tr *Translator) havocAll() {
 	newState := &State{M: map[string]string{}, Epoch: tr.epoch}
 	oldState := tr.cur
 	tr.cur = newState
+	{
+		// partitions first used after this point: related lazily to their value before the havoc
+		rel := epochRel{parent: oldState.Epoch}
+		if len(prot) > 0 {
+			rel.keep = or(prot...)
+		}
+		if len(protMaps) > 0 {
+			rel.keepMaps = or(protMaps...)
+		}
+		if rel.keep != "" || rel.keepMaps != "" {
+			tr.u.epochs[tr.epoch] = rel
+		}
+	}
 	for _, c := range touched {
 		if strings.Contains(c, "IT_") {
 			newState.M[c] = oldState.M[c]
@@ -1100,10 +1135,14 @@ func (fc *fctx) bindLoopVars(env *Env, b *ssa.BasicBlock, ord int, phiVal func(*
 				// an address-taken local (an Alloc): its name denotes the value it holds in the state the clause is evaluated in
 				if id, ok := x.Expr.(*ast.Ident); ok && x.IsAddr {
 					if al, isAlloc := x.X.(*ssa.Alloc); isAlloc {
-						if _, isParam := fc.params[id.Name]; !isParam {
-							if vs, ok := fc.vals[al]; ok && len(vs) == 1 {
-								et := al.Type().Underlying().(*types.Pointer).Elem()
-								if _, isArr := et.Underlying().(*types.Array); !isArr {
+						_, isParam := fc.params[id.Name]
+						if vs, ok := fc.vals[al]; ok && len(vs) == 1 {
+							et := al.Type().Underlying().(*types.Pointer).Elem()
+							if _, isArr := et.Underlying().(*types.Array); !isArr {
+								if isParam {
+									// an address-taken parameter: <name> stays its entry value, cur_<name> is what the variable holds now
+									env.vars["cur_"+id.Name] = fc.tr.loadTag(env.st, vs[0].E(), et, "cell")
+								} else {
 									env.vars[id.Name] = fc.tr.loadTag(env.st, vs[0].E(), et, "cell")
 								}
 							}
